@@ -135,6 +135,31 @@ FIXED = [
 ]
 
 
+def same_name_family():
+    """Alternatives with three to five items that get the SAME default variable name in the generated code (literals,
+    calls of one rule, optional literals), with and without actions: the generator must keep them apart."""
+    def T(s, name=None, opt=False):
+        d = {"k": "tok", "s": s}
+        if opt:
+            d = {"k": "opt", "x": d}
+        if name:
+            d["name"] = name
+        return d
+
+    def R(n):
+        return {"k": "rule", "n": n}
+
+    out = []
+    for n in (3, 4, 5):
+        toks = ["a", "b", "c", "a", "b"][:n]
+        out.append({"rules": [{"name": "r0", "memo": False, "alts": [{"items": [T(t) for t in toks], "action": None}]}]})
+        out.append({"rules": [{"name": "r0", "memo": False, "alts": [{"items": [T(t, opt=True) for t in toks] + [T("c")], "action": None}]}]})
+        out.append({"rules": [{"name": "r0", "memo": False, "alts": [{"items": [R("r1") for _ in range(n)], "action": None}]},
+                              {"name": "r1", "memo": False, "alts": [{"items": [T("a")], "action": None}, {"items": [T("b")], "action": None}]}]})
+        out.append({"rules": [{"name": "r0", "memo": True, "alts": [{"items": [T(t) for t in toks] + [{"k": "star", "x": T("c")}, {"k": "star", "x": T("a")}, {"k": "star", "x": T("b")}], "action": None}]}]})
+    return out
+
+
 def multi_cycle_family():
     """Indirectly left-recursive components with TWO cycles that share only some of their rules, under every assignment
     of the rule names (which rule sorts first/last decides which candidate a leader search looks at): the only rule on
@@ -179,9 +204,10 @@ def run(rep, tier, pool, variants=("shipped",)):
     gs = list(FIXED)
     fam = [g for g in multi_cycle_family() if G.well_formed(g)]
     gs += fam if tier != "quick" else [fam[i] for i in range(0, len(fam), 2)]
+    gs += [g for g in same_name_family() if G.well_formed(g)]
     rep.extra["multi_cycle_grammars"] = len(fam)
     tries = 0
-    while len(gs) < n + len(FIXED) + len(fam) and tries < n * 60:
+    while len(gs) < n + len(FIXED) + len(fam) + 12 and tries < n * 60:
         tries += 1
         g = G.gen_grammar(r)
         try:
@@ -193,7 +219,7 @@ def run(rep, tier, pool, variants=("shipped",)):
     total_strings = 0
     for g, o in zip(gs, res):
         text = o.get("grammar") or G.render(g)
-        if o.get("skip") or o.get("k") in ("hang", "crash", "worker-exc"):
+        if o.get("skip") or o.get("k") in ("hang", "crash", "worker-exc", "not-run"):
             rep.case(text, False)
             rep.count("skip:" + str(o.get("skip") or o.get("k")))
             continue
